@@ -70,6 +70,18 @@ Definition check_case (c : case) : bool :=
       | Some d => pv_eqb v (VSome d) && no_deprecated OtlpSchema m d
       end
   | 3%nat => true
+  | 10%nat =>   (* v = VRep [payloads marshalled one after the other]; j = JArr [JStr bytes kept from call i, read at the END] *)
+      match v, j with
+      | VRep vs, JArr os =>
+          list_eqb (list_eqb N.eqb) (observe (run_fresh (encode OtlpSchema m) vs))
+                   (map (fun o => match o with JStr x => x | _ => [256] (* not a byte string: never equal *) end) os)
+      | _, _ => false
+      end
+  | 11%nat =>   (* the same for the JSON marshaler: j = JArr [the tree parsed at the END from the bytes kept from call i] *)
+      match v, j with
+      | VRep vs, JArr os => list_eqb jv_eqb (map (otlp_to_json m) vs) os
+      | _, _ => false
+      end
   | 4%nat => jv_eqb (otlp_to_json m v) j
   | 7%nat =>
       match decode_path OtlpSchema PProtoUnmarshaler m b with
